@@ -164,6 +164,35 @@ def check_case(ctx, case, seed, lines, pend):
             elif not torch.equal(got.to(torch.float64), want.to(DT[dt]).to(torch.float64)):
                 ctx.fail(f'tensor {tid} on rank {rank}: value differs from the unbucketed allreduce over {g}',
                          jcase, 'value')
+        # capacity clause, from the observed events only: whenever this rank issues the all-reduce of a bucket that holds
+        # two or more of its tensors, their bytes fit the capacity (the implementation decides WHEN; the sizes are ours)
+        open_b = {}
+        for op, po in zip(ops, per_op):
+            if op[0] == 'fl':
+                open_b = {}
+                continue
+            if po is None:
+                continue
+            _, gi, tid, shape, dt, sym, avg = op
+            if len(groups[gi]) == 1:
+                continue
+            nel = 1
+            for d_ in shape:
+                nel *= d_
+            if sym and len(shape) == 2:
+                nel = shape[0] * (shape[0] + 1) // 2
+            issued_here = [e for e in po[1] if tuple(e[0]) == tuple(groups[gi])]
+            if issued_here:
+                cur = open_b.get(gi, [])
+                if len(cur) >= 2 and sum(cur) > capb:
+                    ctx.fail(f'rank {rank}: a bucket of {len(cur)} tensors with {sum(cur)} bytes was all-reduced although the '
+                             f'capacity is {capb} bytes', jcase, 'capacity')
+                open_b[gi] = [nel * ES[dt]]
+            else:
+                open_b.setdefault(gi, []).append(nel * ES[dt])
+                if len(open_b[gi]) >= 2 and sum(open_b[gi]) > capb:
+                    ctx.fail(f'rank {rank}: the open bucket of group {groups[gi]} holds {len(open_b[gi])} tensors with '
+                             f'{sum(open_b[gi])} bytes, the capacity is {capb} bytes', jcase, 'capacity')
         # model line for this rank
         mops, impl = [], []
         for op, po in zip(ops, per_op):
